@@ -8,7 +8,9 @@
                                                   hessian[i][j] += w * h[i][j] ; bhhh[i][j] += w * g[i] * g[j]
        applyTheFormula           (lines 71-195)   threads joined in the order of their index,
                                                   result += theInput[thread]->result (and g, h, bhhh alike)
-     evaluateExpressions.cc prepareData (same partition for the one-expression evaluator)
+     evaluateExpressions.cc prepareData (same partition for the one-expression evaluator, always 4 threads;
+       when it aggregates, the join adds the rows' values one by one in thread order, i.e. it
+       accumulates sequentially over concat (blocks n 4) -- observed by stream partition_observed)
    and from /repo/src/biogeme/biogeme.py (number_of_threads getter, division by the sample size:
    these two are *generated* in Gen/Threads.v, tie A). *)
 From Coq Require Import ZArith List Reals.
